@@ -8,6 +8,9 @@
 #ifndef BS
 #define BS 2
 #endif
+#ifndef HIST
+#define HIST 2
+#endif
 #ifndef BS2
 #define BS2 3
 #endif
@@ -251,12 +254,14 @@ static size_t one_query(StringDictionaryPFC *d, uint kind, uchar *q, uint ql, si
 extern "C" void h_pfc_c14() {
   Built b;
   StringDictionaryPFC *d = build(b, BS);
-  d->save(*verif_ostream(0));
   uchar qa[LMAX + 3], qb[LMAX + 3], qa0[LMAX + 3], qb0[LMAX + 3];
   uint la = mk_query(qa, LMAX + 1), lb = mk_query(qb, LMAX + 1);
   for (int j = 0; j < LMAX + 3; j++) { qa0[j] = qa[j]; qb0[j] = qb[j]; }
   uint ka = nondet_uchar(), kb = nondet_uchar();
   verif_assume(ka < 3 && kb < 3);
+#ifdef KA
+  verif_assume(ka == KA);        // the obligation fixes the kind of query A (enumerated: 0 locate, 1 extract, 2 locatePrefix)
+#endif
   size_t ida = nondet_ulong(), idb = nondet_ulong();
   uchar oa1[LMAX + 2], ob[LMAX + 2], oa2[LMAX + 2];
   size_t ra1 = one_query(d, ka, qa, la, ida, oa1);
@@ -267,9 +272,25 @@ extern "C" void h_pfc_c14() {
   verif_assert(ra1 == ra2, 1);
   for (int j = 0; j < LMAX + 2; j++) verif_assert(oa1[j] == oa2[j], 2);
   for (int j = 0; j < LMAX + 3; j++) verif_assert(qa[j] == qa0[j] && qb[j] == qb0[j], 3);
-  d->save(*verif_ostream(1));
-  verif_assert(verif_stream_equal(0, 1, VS_BOUND), 4);   // object state bit-identical after queries
   delete open_it;
+  delete d;
+  verif_witness();
+}
+// the dictionary's saved image is bit-identical before and after any single query (inductive step of "any history")
+extern "C" void h_pfc_c14s() {
+  Built b;
+  StringDictionaryPFC *d = build(b, BS);
+  d->save(*verif_ostream(0));
+  uchar q[LMAX + 3], o[LMAX + 2];
+  uint ql = mk_query(q, LMAX + 1);
+  uint k = nondet_uchar(); verif_assume(k < 3);
+  size_t id = nondet_ulong();
+  one_query(d, k, q, ql, id, o);
+  IteratorDictString *it = d->extractTable();
+  if (it->hasNext()) { uint len; uchar *e = it->next(&len); delete[] e; }
+  delete it;
+  d->save(*verif_ostream(1));
+  verif_assert(verif_stream_equal(0, 1, VS_BOUND), 1);
   delete d;
   verif_witness();
 }
@@ -322,5 +343,31 @@ extern "C" void h_pfc_build_twice() {
   d2->save(*verif_ostream(1));
   verif_assert(verif_stream_equal(0, 1, VS_BOUND), 1);
   delete d1; delete d2;
+  verif_witness();
+}
+
+// ---- C07: any short history of API calls on one object, then destroy; all pointer checks on
+extern "C" void h_pfc_c07hist() {
+  Built b;
+  StringDictionaryPFC *d = build(b, BS);
+  for (int step = 0; step < HIST; step++) {
+    uchar q[LMAX + 3], o[LMAX + 2];
+    uint ql = mk_query(q, LMAX + 1);
+    uint k = nondet_uchar(); verif_assume(k < 6);
+    size_t id = nondet_ulong();
+    if (k < 3) one_query(d, k, q, ql, id, o);
+    else if (k == 3) {
+      IteratorDictString *it = d->extractPrefix(q, ql);
+      if (it) { for (int r = 0; r < NSTR + 1; r++) { if (!it->hasNext()) break; uint len; uchar *e = it->next(&len); verif_assert(e != 0 && e[len] == 0, 1); delete[] e; } delete it; }
+    } else if (k == 4) {
+      IteratorDictString *it = d->extractTable();
+      for (int r = 0; r < NSTR + 1; r++) { if (!it->hasNext()) break; uint len; uchar *e = it->next(&len); verif_assert(e != 0 && e[len] == 0, 2); delete[] e; }
+      delete it;
+    } else {
+      verif_stream_reset(0);
+      d->save(*verif_ostream(0));
+    }
+  }
+  delete d;
   verif_witness();
 }
